@@ -22,6 +22,9 @@ Model/Route.vos Model/Route.vok Model/Route.required_vos: Model/Route.v Model/Ba
 Model/Poll.vo Model/Poll.glob Model/Poll.v.beautified Model/Poll.required_vo: Model/Poll.v Model/Base.vo
 Model/Poll.vio: Model/Poll.v Model/Base.vio
 Model/Poll.vos Model/Poll.vok Model/Poll.required_vos: Model/Poll.v Model/Base.vos
+Model/Kernel.vo Model/Kernel.glob Model/Kernel.v.beautified Model/Kernel.required_vo: Model/Kernel.v Model/Base.vo
+Model/Kernel.vio: Model/Kernel.v Model/Base.vio
+Model/Kernel.vos Model/Kernel.vok Model/Kernel.required_vos: Model/Kernel.v Model/Base.vos
 Model/Store.vo Model/Store.glob Model/Store.v.beautified Model/Store.required_vo: Model/Store.v Model/Base.vo
 Model/Store.vio: Model/Store.v Model/Base.vio
 Model/Store.vos Model/Store.vok Model/Store.required_vos: Model/Store.v Model/Base.vos
@@ -124,6 +127,9 @@ Proofs/PC06.vos Proofs/PC06.vok Proofs/PC06.required_vos: Proofs/PC06.v Model/Mo
 Proofs/PC18.vo Proofs/PC18.glob Proofs/PC18.v.beautified Proofs/PC18.required_vo: Proofs/PC18.v Model/Poll.vo
 Proofs/PC18.vio: Proofs/PC18.v Model/Poll.vio
 Proofs/PC18.vos Proofs/PC18.vok Proofs/PC18.required_vos: Proofs/PC18.v Model/Poll.vos
+Proofs/PC12.vo Proofs/PC12.glob Proofs/PC12.v.beautified Proofs/PC12.required_vo: Proofs/PC12.v Model/Kernel.vo
+Proofs/PC12.vio: Proofs/PC12.v Model/Kernel.vio
+Proofs/PC12.vos Proofs/PC12.vok Proofs/PC12.required_vos: Proofs/PC12.v Model/Kernel.vos
 Props/C09.vo Props/C09.glob Props/C09.v.beautified Props/C09.required_vo: Props/C09.v Model/Mon.vo Model/MonC09.vo Proofs/StoreLocks.vo Proofs/Discipline.vo Proofs/SysInv.vo Proofs/PC09.vo
 Props/C09.vio: Props/C09.v Model/Mon.vio Model/MonC09.vio Proofs/StoreLocks.vio Proofs/Discipline.vio Proofs/SysInv.vio Proofs/PC09.vio
 Props/C09.vos Props/C09.vok Props/C09.required_vos: Props/C09.v Model/Mon.vos Model/MonC09.vos Proofs/StoreLocks.vos Proofs/Discipline.vos Proofs/SysInv.vos Proofs/PC09.vos
@@ -166,6 +172,9 @@ Props/C18.vos Props/C18.vok Props/C18.required_vos: Props/C18.v Model/Poll.vos P
 Props/C20.vo Props/C20.glob Props/C20.v.beautified Props/C20.required_vo: Props/C20.v Model/Mon.vo Model/MonC01.vo Model/MonC03.vo Proofs/StorePromises.vo Proofs/SysInv.vo Proofs/PC01.vo Proofs/PC03.vo
 Props/C20.vio: Props/C20.v Model/Mon.vio Model/MonC01.vio Model/MonC03.vio Proofs/StorePromises.vio Proofs/SysInv.vio Proofs/PC01.vio Proofs/PC03.vio
 Props/C20.vos Props/C20.vok Props/C20.required_vos: Props/C20.v Model/Mon.vos Model/MonC01.vos Model/MonC03.vos Proofs/StorePromises.vos Proofs/SysInv.vos Proofs/PC01.vos Proofs/PC03.vos
+Props/C12.vo Props/C12.glob Props/C12.v.beautified Props/C12.required_vo: Props/C12.v Model/Kernel.vo Proofs/PC12.vo
+Props/C12.vio: Props/C12.v Model/Kernel.vio Proofs/PC12.vio
+Props/C12.vos Props/C12.vok Props/C12.required_vos: Props/C12.v Model/Kernel.vos Proofs/PC12.vos
 Props/C15.vo Props/C15.glob Props/C15.v.beautified Props/C15.required_vo: Props/C15.v Gen/Status.vo Spec/Front15.vo Model/Coro.vo
 Props/C15.vio: Props/C15.v Gen/Status.vio Spec/Front15.vio Model/Coro.vio
 Props/C15.vos Props/C15.vok Props/C15.required_vos: Props/C15.v Gen/Status.vos Spec/Front15.vos Model/Coro.vos
